@@ -17,6 +17,7 @@ CONSTANTS
   KeepHist = FALSE
   MaxGens = 1
 INVARIANT H_Globals
+INVARIANT H_CallerObjects
 INVARIANT H_CallIndep
 INVARIANT H_Documents
 INVARIANT H_FaultTransparency
